@@ -59,8 +59,15 @@ def _reorder_lines(stmts: List[ast.stmt], call_line) -> None:
                     setattr(n, attr, OrdLine(int(v), base + OrdLine.key_of(v)))
 
 
+# private helpers of today's tree that rules are anchored on by name (they are analysed as functions of their own, with their own keys in
+# the known-findings file); everything else that is private and used once is put back into its caller
+ANCHORED_HELPERS = {
+    '_parameter_with_currency_units_converted_back_to_preferred_units',     # C06 U7/U9: third sibling of the K/M prefix blocks
+}
+
+
 def _is_private(name: str) -> bool:
-    return name.startswith('_') and not (name.startswith('__') and name.endswith('__'))
+    return name.startswith('_') and not (name.startswith('__') and name.endswith('__')) and name not in ANCHORED_HELPERS
 
 
 def _reference_counts(repo) -> Dict[str, int]:
@@ -252,13 +259,26 @@ def _inline_at(caller: ast.AST, stmt: ast.stmt, call: ast.Call, helper: ast.Func
 
     direct = getattr(stmt, 'value', None) is call and not isinstance(stmt, (ast.AugAssign, ast.AnnAssign))
     if not direct:
-        if not _nested_ok(stmt, call, helper):
+        if not _first_evaluated(stmt, call):
             return None
-        ret = new_body[-1].value
+        if _straight_line(helper):
+            ret = new_body[-1].value
+            pre = new_body[:-1]
+        else:
+            # general helper: its value goes through a fresh temporary that is computed right before the statement
+            tmp = f'{helper.name.strip("_")}__value'
+            if tmp in _names(caller):
+                return None
 
-        # stmt is replaced by a copy in which the call is the helper's returned expression (the original node stays untouched)
+            def mk_tmp(v, like):
+                return ast.copy_location(ast.Assign(targets=[ast.Name(id=tmp, ctx=ast.Store())],
+                                                    value=v if v is not None else ast.copy_location(ast.Constant(value=None), like)), like)
+            pre = _eliminate_returns(new_body, mk_tmp)
+            if pre is None:
+                return None
+            ret = ast.Name(id=tmp, ctx=ast.Load())
+        # stmt is replaced by a copy in which the call is the helper's value (the original node stays untouched)
         marker = clone(stmt)
-        # locate the call in the clone by position in a parallel walk
         for a_, b_ in zip(ast.walk(stmt), ast.walk(marker)):
             if a_ is call:
                 target_in_clone = b_
@@ -269,10 +289,9 @@ def _inline_at(caller: ast.AST, stmt: ast.stmt, call: ast.Call, helper: ast.Func
         class R2(ast.NodeTransformer):
             def visit_Call(self, c):
                 if c is target_in_clone:
-                    return ret
+                    return ast.copy_location(ret, c) if isinstance(ret, ast.Name) else ret
                 return self.generic_visit(c)
         new_stmt = R2().visit(marker)
-        pre = new_body[:-1]
         _reorder_lines(pre, stmt.lineno)
         return pre + [new_stmt]
 
@@ -326,36 +345,58 @@ def _call_site(fn: ast.AST, name: str, is_method: bool) -> Optional[Tuple[ast.st
             return st, call, f.value.id
         if not is_method and isinstance(f, ast.Name) and f.id == name:
             return st, call, ''
-    # a call nested in the expression of a simple statement (`row += _token(line) + ', '`)
+    # a call nested in the expression of a simple statement (`row += _token(line) + ', '`) or in the header of a with / if / for
     for st in ast.walk(fn):
-        if not isinstance(st, (ast.Expr, ast.Assign, ast.AugAssign, ast.AnnAssign, ast.Return)):
-            continue
-        for call in ast.walk(st):
-            if not isinstance(call, ast.Call):
-                continue
-            f = call.func
-            if is_method and isinstance(f, ast.Attribute) and f.attr == name and isinstance(f.value, ast.Name):
-                return st, call, f.value.id
-            if not is_method and isinstance(f, ast.Name) and f.id == name:
-                return st, call, ''
+        for hx in _header_exprs(st):
+            for call in ast.walk(hx):
+                if not isinstance(call, ast.Call):
+                    continue
+                f = call.func
+                if is_method and isinstance(f, ast.Attribute) and f.attr == name and isinstance(f.value, ast.Name):
+                    return st, call, f.value.id
+                if not is_method and isinstance(f, ast.Name) and f.id == name:
+                    return st, call, ''
     return None
 
 
-def _nested_ok(stmt: ast.stmt, call: ast.Call, helper: ast.FunctionDef) -> bool:
-    """The helper is straight-line (simple assignments, then `return <expr>`) and nothing else with a possible side effect is evaluated
-    in the statement before the call: every other call of the statement encloses it (so runs after it)."""
-    body = _strip_doc(helper.body)
-    if not body or not isinstance(body[-1], ast.Return) or body[-1].value is None:
-        return False
-    if not all(isinstance(s, ast.Assign) and len(s.targets) == 1 and isinstance(s.targets[0], ast.Name) for s in body[:-1]):
-        return False
-    for c in ast.walk(stmt):
-        if isinstance(c, ast.Call) and c is not call and not any(x is call for x in ast.walk(c)):
+def _header_exprs(st: ast.AST) -> List[ast.AST]:
+    """The expressions a statement evaluates once, before anything else of it runs."""
+    if isinstance(st, (ast.Expr, ast.Return)):
+        return [st.value] if st.value is not None else []
+    if isinstance(st, (ast.Assign, ast.AugAssign, ast.AnnAssign)):
+        return [st.value] if st.value is not None else []
+    if isinstance(st, ast.With):
+        return [st.items[0].context_expr] if st.items else []          # later items run after the first manager was entered
+    if isinstance(st, ast.If):
+        return [st.test]
+    if isinstance(st, ast.For):
+        return [st.iter]
+    return []
+
+
+def _first_evaluated(stmt: ast.stmt, call: ast.Call) -> bool:
+    """Nothing else with a possible side effect is evaluated in the statement's header before the call: every other call there encloses
+    it (so runs after it), and the call is not inside something evaluated lazily, repeatedly or conditionally."""
+    for hx in _header_exprs(stmt):
+        if not any(x is call for x in ast.walk(hx)):
+            continue
+        for c in ast.walk(hx):
+            if isinstance(c, ast.Call) and c is not call and not any(x is call for x in ast.walk(c)):
+                return False
+            if isinstance(c, (ast.Lambda, ast.ListComp, ast.SetComp, ast.DictComp, ast.GeneratorExp, ast.IfExp, ast.BoolOp)) \
+                    and any(x is call for x in ast.walk(c)):
+                return False
+        # assignment targets with subscripts/attribute calls are evaluated after the value; augmented targets are read before it
+        if isinstance(stmt, ast.AugAssign) and not isinstance(stmt.target, ast.Name):
             return False
-        if isinstance(c, (ast.Lambda, ast.ListComp, ast.SetComp, ast.DictComp, ast.GeneratorExp, ast.IfExp, ast.BoolOp)) \
-                and any(x is call for x in ast.walk(c)):
-            return False        # evaluated lazily, repeatedly or conditionally
-    return True
+        return True
+    return False
+
+
+def _straight_line(helper: ast.FunctionDef) -> bool:
+    body = _strip_doc(helper.body)
+    return bool(body) and isinstance(body[-1], ast.Return) and body[-1].value is not None and \
+        all(isinstance(s, ast.Assign) and len(s.targets) == 1 and isinstance(s.targets[0], ast.Name) for s in body[:-1])
 
 
 def _expression_helper(fn: ast.AST, is_method: bool) -> Optional[ast.AST]:
@@ -365,7 +406,7 @@ def _expression_helper(fn: ast.AST, is_method: bool) -> Optional[ast.AST]:
     a = fn.args
     if a.vararg or a.kwarg or a.posonlyargs or (is_method and not a.args):
         return None
-    body = _strip_doc(fn.body)
+    body = [s_ for s_ in _strip_doc(fn.body) if not isinstance(s_, (ast.Import, ast.ImportFrom))]     # function-local imports bind module names only
     if len(body) != 1 or not isinstance(body[0], ast.Return) or body[0].value is None:
         return None
     params = {x.arg for x in a.args + a.kwonlyargs}
@@ -408,6 +449,8 @@ def inline_expression_helpers(repo) -> List[str]:
         for hname, hnode, is_method, ci in cands:
             expr = _expression_helper(hnode, is_method)
             count = [0]
+            if expr is None:
+                continue
 
             class T(ast.NodeTransformer):
                 def visit_FunctionDef(self, n):
